@@ -157,3 +157,83 @@ async fn vf_tail_block_is_complete() {
     }
     println!("VF-SUMMARY test=tail_block_is_complete checked=1 nontrivial=1 bad={}", bad);
 }
+
+#[tokio::test(flavor = "multi_thread", worker_threads = 4)]
+async fn vf_reader_with_listener() {
+    // C08 / C15: what is stored does not depend on a listener being attached, slow, or gone - also for output without a trailing newline;
+    // C20: per header, the blocks a (possibly slow) listener receives reassemble to the stored log of newline-terminated text
+    let all_cases: Vec<(Vec<(u64, Vec<u8>)>, &'static str, bool)> = vec![
+        (vec![(0, b"one\ntwo\n".to_vec())], "two complete lines", true),
+        (vec![(0, b"no trailing newline".to_vec())], "missing trailing newline", false),
+        (vec![(0, b"x\ny".to_vec()), (700, b"z".to_vec())], "unterminated tail across a flush tick", false),
+        (vec![(0, b"AAA".to_vec()), (700, b"BBB\nlast\n".to_vec())], "pause in the middle of a line", true),
+        (vec![(0, (0..30000).flat_map(|i| format!("line {:06} {}\n", i, "p".repeat(120)).into_bytes()).collect()), (900, b"after the flood\n".to_vec())], "4 MB of lines, then one more after a pause", true),
+        (vec![(0, b"quiet one\n".to_vec()), (1300, b"quiet two\n".to_vec())], "two lines 1.3 s apart", true),
+    ];
+    let (mut checked, mut bad) = (0u64, 0u64);
+    for mode in ["listener reading at once", "listener that reads nothing for 1.5 s, then everything"] { for group_text in [true, false] {
+        // streams that do not end in a newline get a connection of their own: an unterminated last line legitimately glues the next
+        // header onto it, which is outside what C20 states (newline-terminated text)
+        let text_cases: Vec<(Vec<(u64, Vec<u8>)>, &'static str, bool)> = all_cases.iter().filter(|c| c.2 == group_text).cloned().collect();
+        let td = tempfile::tempdir().unwrap();
+        let listener = tokio::net::TcpListener::bind("127.0.0.1:0").await.unwrap();
+        let port = listener.local_addr().unwrap().port() as usize;
+        let stall = mode.starts_with("listener that");
+        let srv = tokio::spawn(async move {
+            let (mut sock, _) = listener.accept().await.unwrap();
+            sock.write_all(b"{\"commands\":[],\"targets\":[],\"include_stdout\":true,\"include_stderr\":true}\n").await.unwrap();
+            if stall { tokio::time::sleep(std::time::Duration::from_millis(1500)).await; }
+            let mut all = vec![];
+            let _ = tokio::io::AsyncReadExt::read_to_end(&mut sock, &mut all).await;
+            all
+        });
+        let cfg: server::LogServerConfig = serde_json::from_str(&format!("{{\"host\":\"127.0.0.1\",\"port\":{}}}", port)).unwrap();
+        let lsc = LogServerClient::connect(&cfg).await.unwrap();
+        let mut compressor = Compressor::new(2, Arc::new(AtomicBool::new(false)));
+        let mut clients = vec![]; let mut paths = vec![];
+        for i in 0..text_cases.len() { let p = td.path().join(format!("c{}.zst", i)); clients.push(compressor.register(&p).unwrap()); paths.push(p); }
+        let h = std::thread::spawn(move || compressor.run());
+        let mut joins = vec![];
+        for (i, (chunks, _, _)) in text_cases.iter().enumerate() {
+            let (mut tx, rx) = tokio::io::duplex(1 << 16);
+            let token = Arc::new(tokio_util::sync::CancellationToken::new());
+            let c = clients[i].clone();
+            let l = Some(lsc.clone());
+            let reader = tokio::spawn(async move { process_reader(tokio::io::BufReader::new(rx), c, format!("[h{}]\n", i), l, token).await });
+            let chunks = chunks.clone();
+            joins.push(tokio::spawn(async move {
+                for (pause, bytes) in chunks { if pause > 0 { tokio::time::sleep(std::time::Duration::from_millis(pause)).await; } if !bytes.is_empty() { tx.write_all(&bytes).await.unwrap(); } }
+                drop(tx);
+                reader.await.unwrap()
+            }));
+        }
+        let mut results = vec![];
+        for j in joins { results.push(tokio::time::timeout(std::time::Duration::from_secs(60), j).await.map(|r| r.unwrap()).map_err(|_| "timeout")); }
+        for c in &clients { let _ = c.shutdown().await; }
+        let _ = h.join().unwrap();
+        drop(lsc);
+        let heard = tokio::time::timeout(std::time::Duration::from_secs(30), srv).await.map(|r| r.unwrap()).unwrap_or_default();
+        // split what the listener heard into blocks by header line
+        let mut blocks: std::collections::BTreeMap<usize, Vec<u8>> = Default::default();
+        let mut cur: Option<usize> = None;
+        for line in heard.split_inclusive(|b| *b == b'\n') {
+            let t = String::from_utf8_lossy(line);
+            if let Some(n) = t.strip_prefix("[h").and_then(|x| x.strip_suffix("]\n")).and_then(|x| x.parse::<usize>().ok()) { cur = Some(n); blocks.entry(n).or_default(); continue; }
+            if let Some(n) = cur { blocks.get_mut(&n).unwrap().extend_from_slice(line); }
+        }
+        for (i, (chunks, what, nl_text)) in text_cases.iter().enumerate() {
+            checked += 1;
+            let want: Vec<u8> = chunks.iter().flat_map(|(_, b)| b.clone()).collect();
+            let got = std::fs::File::open(&paths[i]).ok().and_then(|f| zstd::stream::decode_all(f).ok()).unwrap_or_default();
+            let ok_res = matches!(&results[i], Ok(Ok(())));
+            if !ok_res || got != want {
+                bad += 1;
+                println!("VF-FAIL stream `{}` with a {} :: stored {} bytes, the process wrote {} (reader finished ok={}); the stored log must not depend on the listener (C08) (C15)", what, mode, got.len(), want.len(), ok_res);
+            } else if *nl_text {
+                let b = blocks.get(&i).cloned().unwrap_or_default();
+                if b != want { bad += 1; println!("VF-FAIL stream `{}` with a {} :: the blocks under its header reassemble to {} bytes, the stored log has {} (first difference at byte {}) (C20)", what, mode, b.len(), want.len(), b.iter().zip(want.iter()).position(|(x, y)| x != y).unwrap_or(b.len().min(want.len()))); }
+            }
+        }
+    } }
+    println!("VF-SUMMARY test=reader_with_listener checked={} nontrivial={} bad={}", checked, checked, bad);
+}
